@@ -28,6 +28,19 @@ pub struct Ctx {
     pub oracle_checks: u64,
     oracle_failures: Vec<OracleFailure>,
     notes: Vec<String>,
+    /// a directory of this run's own for files the code under test reads (`include` / `require`)
+    pub scratch: String,
+}
+
+/// small library files for `include` / `require` (created on first use inside this run's scratch directory)
+pub fn lib_files(dir: &str) -> String {
+    if !std::path::Path::new(dir).exists() {
+        std::fs::create_dir_all(dir).unwrap();
+        std::fs::write(format!("{}/lib1.xeh", dir), ": libword1 101 ;\n: libshared 1 ;\n").unwrap();
+        std::fs::write(format!("{}/lib2.xeh", dir), format!("require \"{}/lib1.xeh\"\n: libword2 libword1 1 + ;\n", dir)).unwrap();
+        std::fs::write(format!("{}/broken.xeh", dir), ": libbroken 7 ;\n77 var libvar\nthen\n").unwrap();
+    }
+    dir.to_string()
 }
 
 impl Ctx {
@@ -136,11 +149,13 @@ fn main() {
         oracle_checks: 0,
         oracle_failures: Vec::new(),
         notes: Vec::new(),
+        scratch: format!("{}/scratch-{}-{}", outdir, prop, std::process::id()),
     };
     if !props::run(&prop, &mut ctx) {
         eprintln!("unknown property {}", prop);
         std::process::exit(2);
     }
+    let _ = std::fs::remove_dir_all(&ctx.scratch);
     std::fs::create_dir_all(&outdir).unwrap();
     let suffix = if ctx.release { ".release" } else { "" };
     let base = format!("{}/{}{}", outdir, prop, suffix);
